@@ -49,6 +49,10 @@ EvOp ==
          tagged == UNION {Tag(e, {v}, LET ds == Explains(ws, e, v) IN
                                       IF ds = {} THEN calc ELSE "dev:" \o (CHOOSE d \in ds : TRUE)) : v \in w2.vs}
      IN /\ ws' = [w2 EXCEPT !.vs = {}]
+        /\ ("DEBUGLINE" \in DOMAIN IOEnv /\ ToString(l) = IOEnv.DEBUGLINE) =>
+              PrintT(<<"DEBUG", l, [j \in 1..Len(CalcOp(ws.recs, e).feats) |->
+                         <<CalcOp(ws.recs, e).feats[j].label, PrintLoc(CalcOp(ws.recs, e).feats[j].loc)>>],
+                       [j \in 1..Len(e.st.feats) |-> <<e.st.feats[j].label, PrintLoc(e.st.feats[j].loc)>>]>>)
         /\ verdicts' = verdicts \cup tagged
   /\ nops' = nops + 1
 
